@@ -61,3 +61,48 @@ package driver
 //@   loop 1
 //@     invariant RowsInv(r) && r.idx == old(r.idx) && r.idx < len(r.rows) && 0 <= $i
 //@     invariant forall k idx(values) :: k < $i ==> typeof(values[k]) == tag(string) && allocated(iref(values[k])) && values[k].(string) == r.rows[r.idx].fields[k]
+
+// ---------------------------------------------------------------------------------------------------------------
+// connection cache of the file driver (C17): a monitor. DrvInv holds whenever fileConnMtx is not held; openFile and
+// Close establish it again before they release the mutex; the cache and every reference count are only touched with
+// the mutex held (guarded-by obligations and the point assertions before the atomic Add calls).
+//
+// The invariant says: every cached connection is registered under its own file name, is in use (refs >= 1) and has an
+// open index on exactly that file; and every index file this process holds locked is in the cache (this driver is the
+// only opener of index files in the process — an assumption on the rest of the program, part of the precondition).
+//@ pred ConnLive(c *fileConn, d *updogDriver, f string) := c != nil && c.d == d && c.file == f && c.refs.v >= 1
+//@   && c.idx != nil && c.idx.db != nil && !c.idx.db.closed && !c.idx.db.wopen && c.idx.db.path == f && flocked(fs, f)
+//@   && allocated(c) && allocated(c.idx) && allocated(c.idx.db)
+//@ pred DrvInv(d *updogDriver) := d != nil && d.fileConnCache != nil
+//@   && (forall f string :: (f in d.fileConnCache) ==> ConnLive(d.fileConnCache[f], d, f))
+//@   && (forall f string :: flocked(fs, f) ==> (f in d.fileConnCache))
+//@ guarded [C17] updogDriver.fileConnCache by fileConnMtx exclusive
+
+//@ func [C17] newUpdogDriver() (d)
+//@   assumes no_index_file_is_open_yet: forall f string :: !flocked(fs, f)
+//@   ensures [C17] fresh(d) && DrvInv(d) && d.fileConnMtx.held == 0
+
+//@ func [C17,C12] (*updogDriver).openFile(d, file, optValues) (conn, err)
+//@   requires DrvInv(d) && d.fileConnMtx.held == 0
+//@   modifies d.fileConnCache[*]; heap fileConn.refs.v; heap ghost.fs; heap bbolt.DB.closed; heap sync.Mutex.held
+//@   ensures [C17] invariant_restored: DrvInv(d) && d.fileConnMtx.held == 0
+//@   ensures [C17] err != nil ==> conn == nil
+//@   ensures [C17] handle_is_live_and_shared: err == nil ==> typeof(conn) == ptrtag(fileConn) && (file in d.fileConnCache)
+//@        && d.fileConnCache[file] == conn.(*fileConn) && ConnLive(conn.(*fileConn), d, file)
+//@   ensures [C17] one_more_user: err == nil && old(file in d.fileConnCache) ==> conn.(*fileConn) == old(d.fileConnCache[file])
+//@        && conn.(*fileConn).refs.v == old(d.fileConnCache[file].refs.v) + 1
+//@   ensures [C17] other_files_untouched: forall f string :: f != file ==> ((f in d.fileConnCache) <==> old(f in d.fileConnCache))
+//@        && d.fileConnCache[f] == old(d.fileConnCache[f])
+//@   assert before Add#1: count_changes_under_the_lock: d.fileConnMtx.held == 2
+//@   assert before Add#2: count_changes_under_the_lock_new: d.fileConnMtx.held == 2
+
+//@ func [C17] (*fileConn).Close(c) (err)
+//@   requires c != nil && c.d != nil && DrvInv(c.d) && c.d.fileConnMtx.held == 0
+//@   requires handle_is_in_use: (c.file in c.d.fileConnCache) && c.d.fileConnCache[c.file] == c
+//@   modifies c.d.fileConnCache[*]; c.refs.v; c.idx.db; heap ghost.fs; heap bbolt.DB.closed; heap sync.Mutex.held
+//@   ensures [C17] invariant_restored: DrvInv(c.d) && c.d.fileConnMtx.held == 0
+//@   ensures [C17] not_last_user_keeps_it_open: old(c.refs.v) > 1 ==> (c.file in c.d.fileConnCache) && c.d.fileConnCache[c.file] == c && c.refs.v == old(c.refs.v) - 1 && fs == old(fs)
+//@   ensures [C17] last_user_releases_the_file: old(c.refs.v) == 1 ==> !(c.file in c.d.fileConnCache) && !flocked(fs, c.file)
+//@   ensures [C17] other_files_untouched: forall f string :: f != c.file ==> ((f in c.d.fileConnCache) <==> old(f in c.d.fileConnCache))
+//@        && c.d.fileConnCache[f] == old(c.d.fileConnCache[f])
+//@   assert before Add: count_changes_under_the_lock: c.d.fileConnMtx.held == 2
